@@ -62,6 +62,9 @@ func c15Run(c *ev.Ctx) {
 	if c.Index%8 == 3 {
 		blockSize = []uint64{16384, 65536}[r.Intn(2)] // plan 5 below
 	}
+	if c.Index%16 == 9 {
+		blockSize = 131072 // a block in which an object of the largest managed size (65536) fits
+	}
 	fh := structures.NewWritableFractalHeap(blockSize)
 	sb := testSB()
 	// overhead of a direct block on disk: signature 4 + version 1 + heap header address
@@ -75,6 +78,9 @@ func c15Run(c *ev.Ctx) {
 	// 4 KiB boundaries inside a large block; the distance (-40..+23 bytes) is enumerated over
 	// the cases, so that every alignment of an object's last byte around a boundary occurs
 	alignEdge := 0
+	if c.Index%16 == 9 {
+		plan = 4 // sizes around the largest managed object
+	}
 	if c.Index%8 == 3 {
 		plan = 5
 		alignEdge = (c.Index/8)%64 - 40
